@@ -67,7 +67,10 @@ struct MReq { bytes: Vec<u8>, to: SocketAddr, sched: Vec<u64>, last_timeout: u64
 struct MAgent { transport: TransportType, local: SocketAddr, out: BTreeMap<u128, MReq>, peers: BTreeSet<SocketAddr>, remote_key: Option<Vec<u8>> }
 
 #[derive(Clone, Debug, PartialEq)]
-enum Verdict { Cancelled, Send, Wait(u64), TimedOut }
+enum Verdict { Cancelled, Send, Wait(u64), TimedOut,
+    /// retransmissions were cancelled: the statements only say that nothing further is transmitted and that the transaction ends
+    /// exactly once - WHEN it ends (at the next retransmission slot, after the remaining schedule, ...) is not pinned
+    Free }
 
 impl MReq {
     fn due(&self) -> Option<u64> { self.last_send.map(|l| l + if self.ti >= self.sched.len() { self.last_timeout } else { self.sched[self.ti] }) }
@@ -80,6 +83,8 @@ impl MReq {
         }
         if self.send_c { Verdict::Cancelled } else { Verdict::Send }
     }
+    /// the verdict as far as the statements pin it
+    fn pinned(&self, now: u64) -> Verdict { if self.send_c && !self.recv_c { Verdict::Free } else { self.verdict(now) } }
 }
 
 #[derive(Clone, Debug)]
@@ -164,8 +169,11 @@ pub fn run_history(h: &[AOp], transport: TransportType, base: Instant, errs: &mu
     let at = |us: u64| base + Duration::from_micros(us);
     let rel = |i: Instant| i.duration_since(base).as_micros() as u64;
     let mut last_wait: Option<u64> = None;
+    let mut last_wait_epoch: Option<u64> = None;
+    let mut epoch: u64 = 0;
     macro_rules! bad { ($k:expr, $($a:tt)*) => { if errs.len() < 5 { errs.push(($k.to_string(), format!("step {}: {}", trace.len(), format!($($a)*)))); } } }
     for op in h {
+        if !matches!(op, AOp::PollAt(_)) { epoch += 1; }
         match op {
             AOp::Send { t, class, sealed, to } => {
                 let tid = TIDS[*t];
@@ -196,20 +204,27 @@ pub fn run_history(h: &[AOp], transport: TransportType, base: Instant, errs: &mu
                     PollWhen::Far => now + 50_000_000,
                 };
                 let ret = agent.poll(at(now));
-                let verdicts: Vec<(u128, Verdict)> = m.out.iter().map(|(k, r)| (*k, r.verdict(now))).collect();
+                let verdicts: Vec<(u128, Verdict)> = m.out.iter().map(|(k, r)| (*k, r.pinned(now))).collect();
+                // C06, generic law: after WaitUntil(t) and no other call in between, an earlier poll repeats t and a poll at or after t yields an event
+                let law = if last_wait_epoch == Some(epoch) { last_wait } else { None };
                 match ret {
                     StunAgentPollRet::WaitUntil(w) => {
                         let w = rel(w);
                         trace.push(format!("poll@{} -> WaitUntil({})", now, w));
                         if !m.out.is_empty() {
                             let waits: Vec<u64> = verdicts.iter().filter_map(|(_, v)| if let Verdict::Wait(d) = v { Some(*d) } else { None }).collect();
-                            if waits.len() != verdicts.len() { bad!("C06:wait-although-serviceable", "poll@{} answered WaitUntil({}) although a transaction needs service now: {:?}", now, w, verdicts); }
-                            else if Some(&w) != waits.iter().min() { bad!("C06:wait-not-earliest", "poll@{} answered WaitUntil({}) but the earliest instant any transaction needs service is {:?}", now, w, waits.iter().min()); }
+                            let free = verdicts.iter().filter(|(_, v)| *v == Verdict::Free).count();
+                            if waits.len() + free != verdicts.len() { bad!("C06:wait-although-serviceable", "poll@{} answered WaitUntil({}) although a transaction needs service now: {:?}", now, w, verdicts); }
+                            else if free == 0 && Some(&w) != waits.iter().min() { bad!("C06:wait-not-earliest", "poll@{} answered WaitUntil({}) but the earliest instant any transaction needs service is {:?}", now, w, waits.iter().min()); }
+                            else if free > 0 && waits.iter().min().map_or(false, |d| w > *d) { bad!("C06:wait-not-earliest", "poll@{} answered WaitUntil({}) but a transaction needs service already at {:?}", now, w, waits.iter().min()); }
                             if w <= now { bad!("C06:wait-not-future", "poll@{} answered WaitUntil({})", now, w); }
+                            if let Some(t) = law { if now < t && w != t { bad!("C06:wait-not-stable", "poll@{} answered WaitUntil({}) although the previous poll answered WaitUntil({}) and nothing happened in between", now, w, t); }
+                                                   if now >= t { bad!("C06:no-event-at-wakeup", "poll@{} answered WaitUntil({}) although the previous poll promised an event at {}", now, w, t); } }
                         }
-                        last_wait = Some(w);
+                        last_wait = Some(w); last_wait_epoch = Some(epoch);
                     }
                     StunAgentPollRet::SendData(tx) => {
+                        if let Some(t) = law { if now < t { bad!("C06:event-before-wakeup", "poll@{} produced a transmission although the previous poll answered WaitUntil({}) and nothing happened in between", now, t); } }
                         last_wait = None;
                         let id = m.out.iter().find(|(_, r)| r.bytes == tx.data() && r.to == tx.to).map(|(k, _)| *k);
                         trace.push(format!("poll@{} -> SendData({} bytes to {})", now, tx.data().len(), tx.to));
@@ -226,16 +241,18 @@ pub fn run_history(h: &[AOp], transport: TransportType, base: Instant, errs: &mu
                         }
                     }
                     StunAgentPollRet::TransactionTimedOut(t) => {
+                        if let Some(w0) = law { if now < w0 { bad!("C06:event-before-wakeup", "poll@{} reported a timeout although the previous poll answered WaitUntil({}) and nothing happened in between", now, w0); } }
                         last_wait = None;
                         let t: u128 = t.into();
                         trace.push(format!("poll@{} -> TimedOut({:#x})", now, t));
-                        match m.out.get(&t).map(|r| r.verdict(now)) { Some(Verdict::TimedOut) => { m.out.remove(&t); } v => bad!("C06:timeout", "poll@{} reported TimedOut({:#x}) but that transaction's state calls for {:?}", now, t, v) }
+                        match m.out.get(&t).map(|r| r.pinned(now)) { Some(Verdict::TimedOut) | Some(Verdict::Free) => { m.out.remove(&t); } v => bad!("C06:timeout", "poll@{} reported TimedOut({:#x}) but that transaction's state calls for {:?}", now, t, v) }
                     }
                     StunAgentPollRet::TransactionCancelled(t) => {
+                        if let Some(w0) = law { if now < w0 { bad!("C06:event-before-wakeup", "poll@{} reported a cancellation although the previous poll answered WaitUntil({}) and nothing happened in between", now, w0); } }
                         last_wait = None;
                         let t: u128 = t.into();
                         trace.push(format!("poll@{} -> Cancelled({:#x})", now, t));
-                        match m.out.get(&t).map(|r| r.verdict(now)) { Some(Verdict::Cancelled) => { m.out.remove(&t); } v => bad!("C05:cancelled", "poll@{} reported Cancelled({:#x}) but that transaction's state calls for {:?}", now, t, v) }
+                        match m.out.get(&t).map(|r| r.pinned(now)) { Some(Verdict::Cancelled) | Some(Verdict::Free) => { m.out.remove(&t); } v => bad!("C05:cancelled", "poll@{} reported Cancelled({:#x}) but that transaction's state calls for {:?}", now, t, v) }
                     }
                 }
             }
